@@ -91,6 +91,15 @@ func solveOne(L *Loaded, rep *vc.FuncReport, ob *vc.Obligation, timeout, seed in
 		solveSplit(L, rep, ob, timeout, seed)
 		return
 	}
+	if extra == nil && os.Getenv("GOVC_NOCHUNK") == "" {
+		scriptMu.Lock()
+		cs := L.Engine.WideConjuncts(ob.Goal)
+		scriptMu.Unlock()
+		if len(cs) >= 24 {
+			solveChunks(L, rep, ob, cs, timeout, seed)
+			return
+		}
+	}
 	scriptMu.Lock()
 	asserts := append([]*smt.Term{}, rep.Assumptions[:ob.NAssume]...)
 	asserts = append(asserts, extra...)
@@ -191,42 +200,46 @@ func cmdVerify(args []string) int {
 		if !match {
 			continue
 		}
-		t1 := time.Now()
-		rep := L.Engine.Verify(fc)
-		if rep.Err != "" {
-			fmt.Printf("%-50s OUT OF REACH: %s\n", rep.Name, rep.Err)
-			bad++
-			continue
-		}
-		var jobs []job
-		for _, ob := range rep.Obls {
-			jobs = append(jobs, job{rep, ob})
-		}
-		gen := time.Since(t1).Seconds()
-		solveAll(L, jobs, *timeout, 0, 8)
-		n, ok := 0, 0
-		for _, ob := range rep.Obls {
-			n++
-			if ob.Verdict == "unsat" {
-				ok++
+		for _, rep := range L.Engine.Verify(fc) {
+			t1 := time.Now()
+			name := rep.Name
+			if rep.Path != "" {
+				name += "@" + strings.TrimPrefix(rep.Path, ".")
 			}
-		}
-		fmt.Printf("%-50s %d/%d discharged  (gen %.2fs, total %.2fs)\n", rep.Name, ok, n, gen, time.Since(t1).Seconds())
-		for _, ob := range rep.Obls {
-			if ob.Verdict != "unsat" || *verbose {
-				fmt.Printf("    %-8s %-10s %6.2fs  %s  [%s]\n", ob.Verdict, ob.Solver, ob.Seconds, ob.Name, ob.Pos)
-				if ob.Verdict == "sat" {
-					fmt.Printf("             model: %s\n", modelString(rep, ob))
-				} else if ob.Verdict != "unsat" {
-					r := strings.ReplaceAll(ob.Raw, "\n", " | ")
-					if len(r) > 300 {
-						r = r[:300]
-					}
-					fmt.Printf("             %s\n", r)
+			if rep.Err != "" {
+				fmt.Printf("%-50s OUT OF REACH: %s\n", name, rep.Err)
+				bad++
+				continue
+			}
+			var jobs []job
+			for _, ob := range rep.Obls {
+				jobs = append(jobs, job{rep, ob})
+			}
+			solveAll(L, jobs, *timeout, 0, 8)
+			n, ok := 0, 0
+			for _, ob := range rep.Obls {
+				n++
+				if ob.Verdict == "unsat" {
+					ok++
 				}
 			}
-			if ob.Verdict != "unsat" {
-				bad++
+			fmt.Printf("%-50s %d/%d discharged  (%.2fs)\n", name, ok, n, time.Since(t1).Seconds())
+			for _, ob := range rep.Obls {
+				if ob.Verdict != "unsat" || *verbose {
+					fmt.Printf("    %-8s %-10s %6.2fs  %s  [%s]\n", ob.Verdict, ob.Solver, ob.Seconds, ob.Name, ob.Pos)
+					if ob.Verdict == "sat" {
+						fmt.Printf("             model: %s\n", modelString(rep, ob))
+					} else if ob.Verdict != "unsat" {
+						r := strings.ReplaceAll(ob.Raw, "\n", " | ")
+						if len(r) > 300 {
+							r = r[:300]
+						}
+						fmt.Printf("             %s\n", r)
+					}
+				}
+				if ob.Verdict != "unsat" {
+					bad++
+				}
 			}
 		}
 	}
@@ -349,4 +362,81 @@ func solveSplit(L *Loaded, rep *vc.FuncReport, ob *vc.Obligation, timeout, seed 
 	}
 	sort.Strings(ss)
 	ob.Solver = strings.Join(ss, "+") + fmt.Sprintf(" (%d cases)", len(subs))
+}
+
+// solveChunks proves a wide conjunction (a 188-fold expanded forall) piecewise: the conjuncts are
+// grouped and each group is a separate query; all must be unsat.
+func solveChunks(L *Loaded, rep *vc.FuncReport, ob *vc.Obligation, cs []*smt.Term, timeout, seed int) {
+	X := L.Engine.X
+	const chunk = 12
+	var scripts, absScripts []*smt.Script
+	var gets []*smt.Term
+	for _, o := range rep.Observe {
+		gets = append(gets, o.T)
+	}
+	scriptMu.Lock()
+	base := append([]*smt.Term{}, rep.Assumptions[:ob.NAssume]...)
+	base = append(base, ob.PC)
+	for i := 0; i < len(cs); i += chunk {
+		j := i + chunk
+		if j > len(cs) {
+			j = len(cs)
+		}
+		as := append(append([]*smt.Term{}, base...), X.Not(X.And(cs[i:j]...)))
+		scripts = append(scripts, X.Script(as, gets, "ALL", true))
+		absScripts = append(absScripts, X.ScriptAbstract(as))
+	}
+	scriptMu.Unlock()
+	results := make([]*smt.Result, len(scripts))
+	errs := make([]error, len(scripts))
+	var wg sync.WaitGroup
+	sem := make(chan struct{}, 6)
+	t0 := time.Now()
+	for i := range scripts {
+		i := i
+		wg.Add(1)
+		go func() {
+			defer wg.Done()
+			sem <- struct{}{}
+			defer func() { <-sem }()
+			results[i], errs[i] = smt.SolveWithAbstraction(scripts[i], absScripts[i], len(gets), timeout, seed, os.Getenv("GOVC_SOLVER"))
+		}()
+	}
+	wg.Wait()
+	ob.Seconds = time.Since(t0).Seconds()
+	ob.Verdict = "unsat"
+	solvers := map[string]bool{}
+	for i, res := range results {
+		if errs[i] != nil {
+			ob.Verdict, ob.Raw = "error", errs[i].Error()
+			return
+		}
+		solvers[res.Solver] = true
+		if res.Verdict != smt.Unsat {
+			// prefer reporting a definite counterexample over an undecided chunk
+			if ob.Verdict == "sat" {
+				continue
+			}
+			ob.Verdict = res.Verdict.String()
+			ob.Solver = res.Solver
+			ob.Raw = fmt.Sprintf("conjuncts %d..%d: %s", i*chunk, i*chunk+chunk-1, res.Raw)
+			if res.Verdict == smt.Sat {
+				ob.Model = map[string]uint64{}
+				for j, o := range rep.Observe {
+					if j < len(res.HasVal) && res.HasVal[j] {
+						ob.Model[o.Name] = res.Values[j]
+					}
+				}
+			}
+		}
+	}
+	if ob.Verdict != "unsat" {
+		return
+	}
+	var ss []string
+	for s := range solvers {
+		ss = append(ss, s)
+	}
+	sort.Strings(ss)
+	ob.Solver = strings.Join(ss, "+") + fmt.Sprintf(" (%d chunks)", len(scripts))
 }
